@@ -380,8 +380,7 @@ fn access_search_tables(repo: &str, out: &str) -> Result<String, String> {
     if arm_returns != want_returns {
         return Err(format!("search_filter_entry: returns of the origin arms changed: {arm_returns:?}"));
     }
-    body += "/-- `search_filter_entry`: result of the System / MessageQueue / Synch arms (true = Grant, false = Deny) -/\n";
-    body += "def systemGrants : Bool := true\ndef messageQueueGrants : Bool := false\ndef synchGrants : Bool := false\n";
+    body += "-- verified shape of `search_filter_entry`: origin arms System => Grant, AccountRequest => Grant|Deny,\n-- Migration => Grant|Deny, MessageQueue => Deny, Synch(_) => Deny, User(_) => falls through\n";
     // scope match
     let scope = matches_in(&sfe.block)
         .into_iter()
@@ -398,7 +397,7 @@ fn access_search_tables(repo: &str, out: &str) -> Result<String, String> {
     if rv.0 != vec![d.clone()] || !rv2.0.is_empty() {
         return Err(format!("search_filter_entry: scope arm results changed: {:?} / {:?}", rv.0, rv2.0));
     }
-    body += "/-- `search_filter_entry`: `AccessScope::Synchronise` is denied, ReadOnly / ReadWrite continue -/\ndef synchroniseScopeDenied : Bool := true\n\n";
+    body += "-- verified shape of `search_filter_entry`: scope Synchronise => Deny, ReadOnly | ReadWrite continue\n\n";
 
     // ---- migration classes ----------------------------------------------------------------------
     let mig = parse_file(repo, "server/lib/src/server/access/migration.rs")?;
@@ -502,7 +501,7 @@ fn access_search_tables(repo: &str, out: &str) -> Result<String, String> {
     }
     body += "/-- `search_filter_entry_attributes`: `requested & &allowed_attrs` when attributes were requested -/\n";
     body += "def reduceAttrs (requested : Option (List Nat)) (allowed : List Nat) : List Nat :=\n  match requested with\n  | some r => inter r allowed\n  | none => allowed\n";
-    body += "/-- Deny and Grant both release nothing at the reduction stage; Internal / Synch are rejected -/\ndef reductionGrantReleases : Bool := false\ndef reductionRejectsInternal : Bool := true\ndef reductionRejectsSynch : Bool := true\n\n";
+    body += "-- verified shape of `search_filter_entry_attributes`: Deny => None, Grant => None (releases nothing),\n-- origin Internal(_) / Synch(_) => Err(InvalidState), related acps = search_related_acp(&se.ident, se.attrs.as_ref())\n\n";
 
     let rel = find_trait_fn(&acc, "AccessControlsTransaction", "search_related_acp")?;
     let relt = toks(&rel.block);
